@@ -245,6 +245,55 @@ func Termination(r *core.Run, sc *Scope, tc TermConfig) {
 		}
 	}
 	sccs := tarjan(sc.Funcs, succ)
+	// pre-pass: the keys of all in-component call sites, so that a table line
+	// whose own site no longer exists can follow the construct to the function
+	// it moved to (helper extracted, function split or renamed)
+	currentKeys := map[string]bool{}
+	for _, comp := range sccs {
+		inC := map[*ScopeFunc]bool{}
+		for _, f := range comp {
+			inC[f] = true
+		}
+		if len(comp) == 1 {
+			self := false
+			for _, t := range succ(comp[0]) {
+				if t == comp[0] {
+					self = true
+				}
+			}
+			if !self {
+				continue
+			}
+		}
+		for _, f := range comp {
+			calls := map[token.Pos]*ast.CallExpr{}
+			f.InspectOwn(func(nd ast.Node) bool {
+				if c, ok := nd.(*ast.CallExpr); ok {
+					calls[c.Lparen] = c
+				}
+				return true
+			})
+			for _, e := range edgesOf[f] {
+				if !inC[e.to] {
+					continue
+				}
+				what := "→ " + shortFn(e.to.Name)
+				if e.site != nil {
+					if c := calls[e.site.Pos()]; c != nil {
+						what = "call " + core.ExprStr(c.Fun)
+					}
+				}
+				currentKeys["R-TERM/T-rec | "+siteKey(f, what)] = true
+			}
+		}
+	}
+	tableCut := func(key string) bool {
+		full := "R-TERM/T-rec | " + key
+		if r.InTable(tc.Table, full) {
+			return true
+		}
+		return r.MovedLine(tc.Table, full, currentKeys) != ""
+	}
 	nrec, nsites := 0, 0
 	for _, comp := range sccs {
 		if len(comp) == 1 {
@@ -339,7 +388,7 @@ func Termination(r *core.Run, sc *Scope, tc TermConfig) {
 		}
 		for _, k := range order {
 			st := sites[k]
-			if st.cut == "" && !r.InTable(tc.Table, "R-TERM/T-rec | "+st.key) {
+			if st.cut == "" && !tableCut(st.key) && calleeLine(r, tc.Table, st.callees) == "" {
 				for t := range st.callees {
 					if resid[st.f] == nil {
 						resid[st.f] = map[*ScopeFunc]bool{}
@@ -380,6 +429,12 @@ func Termination(r *core.Run, sc *Scope, tc TermConfig) {
 			case st.cut != "":
 				o.Auto("%s", st.cut)
 			case r.Table(tc.Table, o):
+			case r.MovedLine(tc.Table, o.Key, currentKeys) != "":
+				r.TableKey(tc.Table, o, r.MovedLine(tc.Table, o.Key, currentKeys))
+				o.Status += " [construct moved]"
+			case calleeLine(r, tc.Table, st.callees) != "":
+				// a line of the form "R-TERM/T-rec | → callee" covers every call of that function inside the component
+				r.TableKey(tc.Table, o, calleeLine(r, tc.Table, st.callees))
 			case !onCycle:
 				o.Auto("not on a cycle once the call sites with a progress argument (input consumed first, visited-set guard, structural descent, recorded reason) are removed from the component")
 			default:
@@ -1352,4 +1407,20 @@ func stmtExprAny(s ast.Stmt) ast.Expr {
 		return x.Cond
 	}
 	return &ast.Ident{Name: "…"}
+}
+
+// calleeLine: every in-component callee of the site has a table line of the
+// form "R-TERM/T-rec | → <callee>"; returns the first such key.
+func calleeLine(r *core.Run, table string, callees map[*ScopeFunc]bool) string {
+	first := ""
+	for t := range callees {
+		k := "R-TERM/T-rec | → " + t.Name
+		if !r.InTable(table, k) {
+			return ""
+		}
+		if first == "" || k < first {
+			first = k
+		}
+	}
+	return first
 }
